@@ -12,7 +12,44 @@ def sh(cmd, timeout=3600):
     return p.returncode, p.stdout.decode("utf-8", "replace")
 
 
+def main_scratch(names):
+    """--scratch: do not touch /repo; apply each change in a scratch worktree and point the checks at it
+    (VERIF_REPO). Used while long runs are using /repo."""
+    resp = os.path.join(SEED, "RESULTS.json")
+    results = json.load(open(resp)) if os.path.exists(resp) else {}
+    wt = "/tmp/seedrun/wt"
+    sh("git -C /repo worktree remove --force %s" % wt)
+    rc, o = sh("mkdir -p /tmp/seedrun && git -C /repo worktree add --detach %s HEAD" % wt)
+    assert rc == 0, o
+    try:
+        for name in names:
+            d = os.path.join(SEED, name)
+            meta = json.load(open(os.path.join(d, "meta.json")))
+            props = [meta["property"]] + meta.get("also", [])
+            sh("git -C %s reset -q --hard HEAD" % wt)
+            rc, o = sh("git -C %s apply %s/patch.diff || git -C %s apply -3 %s/patch.diff" % (wt, d, wt, d))
+            if rc != 0:
+                results[name] = {"error": "patch does not apply: " + o[-300:]}
+                continue
+            res = {}
+            for p in props:
+                t = time.time()
+                rc, o = sh("cd /verif && VERIF_REPO=%s bin/check %s quick" % (wt, p))
+                viol = [l for l in o.splitlines() if l.startswith("VIOLATION")]
+                res[p] = {"exit": rc, "violations": len(viol), "first": (viol[0] if viol else ""),
+                          "wall_s": round(time.time() - t, 1), "tail": "" if rc == 1 else o[-600:]}
+                print(name, p, "exit", rc, "violations", len(viol), "%.0fs" % (time.time() - t), flush=True)
+            results[name] = res
+            json.dump(results, open(resp, "w"), indent=1)
+    finally:
+        sh("git -C /repo worktree remove --force %s" % wt)
+    return 0
+
+
 def main():
+    if len(sys.argv) > 1 and sys.argv[1] == "--scratch":
+        names = sys.argv[2:] or sorted(d for d in os.listdir(SEED) if os.path.isdir(os.path.join(SEED, d)))
+        return main_scratch(names)
     names = sys.argv[1:] or sorted(d for d in os.listdir(SEED) if os.path.isdir(os.path.join(SEED, d)))
     resp = os.path.join(SEED, "RESULTS.json")
     results = json.load(open(resp)) if os.path.exists(resp) else {}
